@@ -325,7 +325,8 @@ def _access_task(name):
     cases = n_ok = 0
     is_obj = name in el.u.objects
     array_of_const = name.startswith("const ")
-    for m, vt in ((0, "Lvalue"), (1, "Lvalue"), (2, "Lvalue"), (0, "Rvalue")):
+    is_matrix = name in el.u.names and el.u.base[el.u.names[name]].variant == "Matrix"
+    for m, vt in ((0, "Lvalue"), (1, "Lvalue"), (2, "Lvalue"), (0, "Rvalue")) + (((3, "Lvalue"), (4, "Lvalue")) if is_matrix else ()):
         if array_of_const and m:
             continue
         comp = el.ety(name, m, vt)
@@ -355,7 +356,7 @@ def _access_task(name):
                 addbad(bad, msg)
             # a part of a const value is not writable: const-qualified, or not an lvalue
             # (a const resource handle does not make the resource contents const: value types and RayDesc only)
-            if not msgs and (not is_obj or name == "RayDesc") and (m == 1 or array_of_const) and vt == "Lvalue" and el.is_lvalue(ty) and not el.is_const(ty):
+            if not msgs and (not is_obj or name == "RayDesc") and (m in (1, 3, 4) or array_of_const) and vt == "Lvalue" and el.is_lvalue(ty) and not el.is_const(ty):
                 kind = node.variant
                 constness.setdefault(kind, "%s has type %s: a part of a const value is a plain lvalue, so assignments, ++/-- and out arguments accept it" % (what, el.describe(ty)))
     return (name, True, cases, n_ok, bad, constness)
